@@ -13,14 +13,17 @@ RULE = ("instances: 1-9 reads x 1-8 columns (>= 4 columns in most cases so that 
         "with a Mendelian conflict (must raise). Coverage is kept <= 6 (quartets <= 5). A case is non-trivial if it has >= 2 "
         "columns, >= 2 reads and some column with coverage >= 2; distinct = distinct instance.")
 TRUSTED = [
-    "modelled, not verified: Gray-code enumeration with incremental cost update (update_partitioning), bit-mask index "
-    "arithmetic of ColumnIndexingScheme/Iterator, Vector2D storage, the back-pointer tables and the sqrt(n)-checkpointed "
-    "recomputation of compute_table (the model enumerates bit vectors and keeps no back-pointers; the witness the real "
-    "code returns is validated per input, not proved for all inputs)",
-    "32-bit unsigned arithmetic with UINT_MAX as infinity is modelled as nat + None; the double -> unsigned conversion of "
-    "genotype likelihood costs is modelled for integral phred values only; Genotype::get_index / operator!= are modelled "
-    "as 'number of ALT alleles' for diploid bi-allelic genotypes",
-    "mapping of genomic positions to column indices and of (name -> numeric sample id -> pedigree index) is done by the harness",
+    "modelled, not verified: Gray-code enumeration with incremental cost update (update_partitioning; the model "
+    "recomputes the flip cost of every bipartition and only uses the Gray order for tie-breaking in the back-pointers), "
+    "bit-mask index arithmetic of ColumnIndexingScheme/Iterator (the model uses bit lists, take and mask), Vector2D "
+    "storage, and WHEN compute_table stores, drops and recomputes columns (sqrt(n) check-pointing): the model treats the "
+    "tables of a column as a function of the column; tied by the exact comparison of cost, witness and alleles on "
+    "instances with k = floor(sqrt(n)) > 1",
+    "32-bit unsigned arithmetic with UINT_MAX as infinity is modelled as nat + None (guard no_overflow); the double -> "
+    "unsigned conversion of genotype likelihood costs is modelled for integral phred values only; Genotype::get_index / "
+    "operator!= are modelled as 'number of ALT alleles' for diploid bi-allelic genotypes",
+    "mapping of genomic positions to column indices and of (name -> numeric sample id -> pedigree index) is done by the "
+    "harness; variants of a read at positions outside `positions` are dropped by the harness as ColumnIterator skips them",
 ]
 ASSUMPTIONS = [
     "wf inst: reads sorted by first position, every read's first and last position is in `positions`, sample of every "
@@ -88,6 +91,11 @@ def run_one(d):
             cost += 1
         elif d["perturb"] == "part" and part:
             part[0] ^= 1
+        elif d["perturb"] == "quality" and al and al[0][0]:
+            p, a, q = al[0][0][0]
+            al[0][0][0] = (p, a, q + 1)
+            p, a, q = al[0][1][0]
+            al[0][1][0] = (p, a, q + 1)
     return {"cost": cost, "part": part, "tv": tv, "sr": al}
 
 for line in sys.stdin:
@@ -475,6 +483,10 @@ def small(inst):
     return nr <= 9 and (4 ** nt) ** n * 2 ** nr <= (1 << 17)
 
 
+def strip(inst):
+    return {k: v for k, v in inst.items() if k != "perturb"}
+
+
 def inst_key(inst):
     return json.dumps({k: v for k, v in inst.items() if k != "perturb"}, sort_keys=True)
 
@@ -513,12 +525,12 @@ def check_cases(ctx, insts, label, with_opt=True, count=True):
         if "crash" in res:
             failing["shape"].append(k)
             ctx.violation("pedmec:solver-abort", f"the solver process aborted (rc={res.get('rc')}: {res['crash'][-200:]}) on {inst_key(inst)}",
-                          {"inst": inst})
+                          {"inst": strip(inst)})
             continue
         if not shape_ok(inst, res):
             failing["shape"].append(k)
             ctx.violation("pedmec:malformed-result", f"unexpected error or malformed super reads {json.dumps(res)[:300]} on {inst_key(inst)}",
-                          {"inst": inst})
+                          {"inst": strip(inst)})
             continue
         cases.append(case_term(inst, res))
         idx.append(k)
@@ -537,7 +549,7 @@ def check_cases(ctx, insts, label, with_opt=True, count=True):
             ctx.tally("bruteforce-optimum-in-coq", len(sm))
     for lab, (sig, what) in SIGNATURES.items():
         for k in failing[lab]:
-            ctx.violation(sig, f"{what}: impl={json.dumps(results[k])[:300]} on {inst_key(insts[k])}", {"inst": insts[k]})
+            ctx.violation(sig, f"{what}: impl={json.dumps(results[k])[:300]} on {inst_key(insts[k])}", {"inst": strip(insts[k])})
     return results, failing
 
 
@@ -637,7 +649,8 @@ def search(ctx, cands_from_l2):
 def run(ctx):
     rng = ctx.rng
     insts = [json.loads(json.dumps(c)) for c in CORPUS]
-    nrand = ctx.n(380, 5000)
+    import os
+    nrand = int(os.environ.get("WHVERIF_C01_N") or ctx.n(380, 5000))
     for _ in range(nrand):
         insts.append(gen_instance(rng))
     for _ in range(ctx.n(30, 300)):      # malformed stream: trusted genotypes with a Mendelian conflict
@@ -648,18 +661,18 @@ def run(ctx):
     results, failing = check_cases(ctx, insts, "generated")
     for inst, res in list(zip(insts, results))[:3] + list(zip(insts, results))[-2:]:
         ctx.sample({"instance": inst, "impl": {k: v for k, v in res.items() if k != "sr"}})
-    l2 = sorted(set(failing["L2cost"]) | set(failing["L2alleles"]))
+    l2 = sorted(set(failing["L2cost"]) | set(failing["L2alleles"]) | set(failing["L2witness"]))
     if l2:
         ctx.disagreements_checked += len(l2)
-        for name in ("L2cost", "L2alleles"):
+        for name in ("L2cost", "L2alleles", "L2witness"):
             if failing[name]:
-                ctx.l2_disagreement(f"PedMEC.{'dp_cost' if name == 'L2cost' else 'get_alleles'} = PedigreeDPTable output ({name})",
+                fn = {"L2cost": "dp_cost", "L2alleles": "get_alleles", "L2witness": "dp_witness"}[name]
+                ctx.l2_disagreement(f"PedMEC.{fn} = PedigreeDPTable output ({name})",
                                     [{"inst": insts[k], "impl": {a: b for a, b in results[k].items() if a != 'sr'}} for k in failing[name]])
         if not any(failing[k] for k in ("L1opt", "L1witness", "L1alleles", "shape")):
             def still(d):
-                r = run_impl(ctx, [d])
                 _, f = check_cases(ctx, [d], "shrink", with_opt=False, count=False)
-                return bool(f["L2cost"] or f["L2alleles"])
+                return bool(f["L2cost"] or f["L2alleles"] or f["L2witness"])
             shrunk = [shrink_instance(insts[k], still) for k in l2[:2]]
             ctx.extra["shrunk_disagreements"] = shrunk
             search(ctx, shrunk + [insts[k] for k in l2])
@@ -684,11 +697,11 @@ def exhaustive_small():
 
 def replay(ctx, data):
     if isinstance(data, dict) and "inst" in data:
-        inst = data["inst"]
+        inst = strip(data["inst"])
         results, failing = check_cases(ctx, [inst], "replay", with_opt=small(inst) or len(inst["reads"]) <= 6)
         ctx.log("replay outcome:", {k: v for k, v in results[0].items() if k != "sr"}, "failing checks:",
                 {k: v for k, v in failing.items() if v})
-        for name in ("L2cost", "L2alleles"):
+        for name in ("L2cost", "L2alleles", "L2witness"):
             if failing[name]:
                 ctx.l2_disagreement(f"PedMEC model = PedigreeDPTable output ({name})", [{"inst": inst}])
     else:
